@@ -76,7 +76,7 @@ def run(R):
     pct = 120 if R.tier == 'quick' else 400
     R.bounds = {'types': f'{len(cat)} types, depth <= 2', 'collections': 'length 0..2; one array type with 7..9 elements',
                 'ints': '32/64-bit ranges, symbolic', 'floats': 'symbolic 32/64-bit patterns (opaque)', 'strings': 'choice among 3 (ASCII, empty, multi-byte UTF-8)',
-                'calls': 'symbolic choice among 8 fixed calls', 'structs': 'value field order is a symbolic permutation of the type field order', 'ndarray': 'concrete numpy arrays chosen symbolically (C/F order, views, <= 3 dims)',
+                'calls': 'symbolic choice among 10 fixed calls', 'structs': 'value field order is a symbolic permutation of the type field order', 'ndarray': 'concrete numpy arrays chosen symbolically (C/F order, views, <= 3 dims)',
                 'per_condition_timeout_s': pct}
     R.assume('struct.pack/unpack replaced in byte_reader by pure-Python little-endian arithmetic (contract validated against the real struct each run)',
              'floats are opaque IEEE bit patterns (struct float packing assumed injective on patterns); floats inside numpy arrays go through the real struct',
